@@ -441,7 +441,7 @@ def _generate_record_class(name: str, fields: tuple[tuple[str, str]]) -> type:
             ).format(field=field.name, default=default)
         unpack_code += "\t\t)"
 
-    init_code += "\t\t__self._generated = _generated or _utcnow()\n\t\t__self._version = _RECORD_VERSION"
+    init_code += "\t\t__self._generated = _generated if _generated is not None else _utcnow()\n\t\t__self._version = _RECORD_VERSION"
     # Store the fieldtypes so we can enforce them in __setattr__()
     field_types = "{\n"
     for field in all_fields:
